@@ -49,6 +49,9 @@ type World struct {
 	LogLines []string
 	KeepLog  bool
 
+	sched *Sched
+	fs    *FSWorld
+
 	// statistics
 	IterCalls   uint64
 	IterShuffle uint64 // iterations over maps with >= 2 keys under OrderSeeded
